@@ -29,9 +29,9 @@ type Plan struct {
 }
 
 type PropPlan struct {
-	Quick, Thorough       []Plan
+	Quick, Thorough         []Plan
 	QuickSecs, ThoroughSecs int
-	Assumptions           []string
+	Assumptions             []string
 }
 
 type Found struct {
@@ -421,20 +421,20 @@ func main() {
 		"seed":        seed,
 		"level":       "model_checking",
 		"coverage": map[string]interface{}{
-			"states":                        max64(states, 1),
-			"transitions":                   max64(transitions, 1),
-			"traces_validated_against_impl": execs,
-			"samples":                       samples,
-			"exhaustive":                    exhaustive,
-			"executions":                    execs,
+			"states":                           max64(states, 1),
+			"transitions":                      max64(transitions, 1),
+			"traces_validated_against_impl":    execs,
+			"samples":                          samples,
+			"exhaustive":                       exhaustive,
+			"executions":                       execs,
 			"executions_pruned_by_state_cache": pruned,
-			"distinct_outcomes":             outcomes,
-			"variants":                      len(jobs),
+			"distinct_outcomes":                outcomes,
+			"variants":                         len(jobs),
 			"preemption_bound_completed_all_variants": minPB,
-			"caps_hit":                      caps,
-			"per_scenario":                  perScenario,
-			"rule":                          "every execution is the real (instrumented) implementation run under the controlled scheduler; states = distinct happens-before states; transitions = scheduler steps executed; a variant is one parameter combination of a scenario driver",
-			"known_findings_reported":       len(knownPrinted),
+			"caps_hit":                caps,
+			"per_scenario":            perScenario,
+			"rule":                    "every execution is the real (instrumented) implementation run under the controlled scheduler; states = distinct happens-before states; transitions = scheduler steps executed; a variant is one parameter combination of a scenario driver",
+			"known_findings_reported": len(knownPrinted),
 		},
 		"assumptions": pp.Assumptions,
 		"wall_s":      time.Since(start).Seconds(),
